@@ -176,7 +176,14 @@ def run_opt(case, viol, obs):
         if got < kstar and ign:
             obs["c04.bounded_reference_beaten"] += 1
         elif got != kstar:
-            viol.append({"sig": ("C04/not-minimum" if got > kstar else "C04/below-reference") + tagstr, "msg": f"returned {got} walks, exact minimum {kstar}; {desc}"})
+            mech = tagstr
+            if got > kstar:
+                # classify: does the library find the minimum as soon as HiGHS' presolve is switched off? Then the solver (trusted base)
+                # wrongly declared a feasible k-model infeasible - keyed as its own mechanism
+                r2 = models.run(inst, solver_options=dict(SO, presolve="off"))
+                if r2.get("solved") and len(r2["sol"]["walks"]) == kstar:
+                    mech = "/solver-presolve-declares-feasible-k-model-infeasible"
+            viol.append({"sig": ("C04/not-minimum" if got > kstar else "C04/below-reference") + mech, "msg": f"returned {got} walks, exact minimum {kstar}; {desc}"})
         lb = getattr(res.get("model"), "_lowerbound_k", None)
         if lb is not None and lb > kstar:
             viol.append({"sig": "C04/lower-bound-overshoots" + tagstr, "msg": f"lower bound {lb} > minimum {kstar}; {desc}"})
